@@ -432,6 +432,60 @@ def rule_style_predicates(ck: Check, repo: Repo, rid: str = "R9") -> None:
 
 
 
+# ------------------------------------------------------------------ R10: the write cannot fail on its own text after the file was truncated
+def rule_write_cannot_fail_on_content(ck: Check, repo: Repo, rid: str = "R10") -> None:
+    """open(path, "w") truncates the file; the text is encoded only when it is written.  A character that UTF-8 cannot
+    encode - a lone surrogate, which is what a command-line argument that is not valid UTF-8 becomes - raises inside the
+    write, after the contents are gone.  Necessary condition decided: the text-mode write of a strict encoding is
+    dominated by a successful `.encode()` of the same expression (or the open carries an errors= mode / writes bytes)."""
+    from ..model import order_index
+    from ..rules import deep_text
+    r = ck.rule(rid, "the header text is known to be encodable before the target file is opened for writing (truncated)")
+    q = "reuse._annotate.add_header_to_file"
+    fn = repo.func(q)
+    ck.analysed_fn(q)
+    pos = order_index(fn)
+    n = 0
+    for w in [x for x in ast.walk(fn) if isinstance(x, ast.With)]:
+        for item in w.items:
+            c = item.context_expr
+            if not (isinstance(c, ast.Call) and ast.unparse(c.func) in ("open", "io.open") and len(c.args) >= 2
+                    and isinstance(c.args[1], ast.Constant) and isinstance(c.args[1].value, str) and "w" in c.args[1].value):
+                continue
+            n += 1
+            mode = c.args[1].value
+            errors = next((ast.unparse(kw.value) for kw in c.keywords if kw.arg == "errors"), None)
+            fpn = ast.unparse(item.optional_vars) if item.optional_vars is not None else None
+            writes = [x for x in ast.walk(w) if isinstance(x, ast.Call) and isinstance(x.func, ast.Attribute) and x.func.attr == "write"
+                      and ast.unparse(x.func.value) == fpn and x.args]
+            texts = [deep_text(fn, x.args[0]) for x in writes]
+            pre = [x for x in ast.walk(fn) if isinstance(x, ast.Call) and isinstance(x.func, ast.Attribute) and x.func.attr == "encode"
+                   and pos[id(x)] < pos[id(c)]]
+            pre_texts = [deep_text(fn, x.func.value) for x in pre]
+            def operands(e: ast.AST) -> list[ast.AST]:
+                return operands(e.left) + operands(e.right) if isinstance(e, ast.BinOp) and isinstance(e.op, ast.Add) else [e]
+
+            def constant_text(e: ast.AST) -> bool:
+                """a literal, or a local whose every assignment is an encodable string literal"""
+                if isinstance(e, ast.Constant) and isinstance(e.value, str):
+                    return not any(0xD800 <= ord(ch) <= 0xDFFF for ch in e.value)
+                if isinstance(e, ast.Name):
+                    vals = [a.value for a in ast.walk(fn) if isinstance(a, ast.Assign) and any(isinstance(t, ast.Name) and t.id == e.id for t in a.targets)]
+                    return bool(vals) and all(constant_text(v) for v in vals if not isinstance(v, ast.Name))
+                return False
+
+            proven = set(pre_texts) | {deep_text(fn, o) for x in pre for o in operands(x.func.value)}
+            covered = bool(writes) and all(all(deep_text(fn, o) in proven or constant_text(o) for o in operands(x.args[0])) for x in writes)
+            ok = "b" in mode or (errors is not None and errors not in ("'strict'",)) or covered
+            r.instance(f"write:{ast.unparse(c)[:50]}", {"open": ast.unparse(c)[:90], "written": texts, "encoded_before_open": pre_texts, "ok": ok}, q)
+            if not ok:
+                r.violation(q, "the file is truncated before the header is known to be encodable",
+                            f"`{ast.unparse(c)[:70]}` then `{fpn}.write({', '.join(texts)[:40]})`: `reuse annotate -c $'J\\xe9' -l MIT a.py` (an argument"
+                            " that is not valid UTF-8 reaches Python as a lone surrogate) raises UnicodeEncodeError inside the write - a.py is"
+                            " left with 0 bytes", repo.loc(c))
+    r.floor(1, "truncating opens in add_header_to_file", got=n)
+
+
 def run(ck: Check, repo: Repo) -> None:
     ck.explanation = (
         "Typestate over every path of add_header_to_file and of the annotate loop: states INIT -> BUILT (builder"
@@ -441,7 +495,7 @@ def run(ck: Check, repo: Repo) -> None:
         " pre-flights precede the loop and have no effects; every option of a mutex table is declared"
         " MutexOption(mutually_exclusive=that table); the anticipated failures are raised."
     )
-    ck.not_decided = ["OS-level failures of the final write itself (disk full, permissions changing mid-run)"]
+    ck.not_decided = ["OS-level failures of the final write itself (disk full, permissions changing mid-run); content-level failure of the write (encoding) is R10"]
     ck.trust("CPython ast", "sa/tab.py", "syntactic table of file-system mutators (T1)")
     rule_write_after_success(ck, repo)
     rule_accumulate(ck, repo)
@@ -458,3 +512,4 @@ def run(ck: Check, repo: Repo) -> None:
     from . import c16
     c16.rule_format_strings(ck, repo, "R8")
     rule_style_predicates(ck, repo)
+    rule_write_cannot_fail_on_content(ck, repo)
